@@ -148,7 +148,7 @@ Definition uv_read (r : registry) (u : upval) : cell :=
   if uv_closed u then uv_value u else rd (arr r) (uv_index u).
 
 (* func (uv *Upvalue) Close() *)
-Definition uv_close (r : registry) (u : upval) : upval := mkUv (uv_index u) true (uv_read r u).
+Definition uv_close (r : registry) (u : upval) : upval := mkUv (uv_index u) true (uv_read r u) (uv_thread u).
 
 (* the loop of closeUpvalues over the chain as it was on entry: every upvalue whose index is
    >= idx is closed ... *)
@@ -191,7 +191,7 @@ Definition findUpvalue_st (idx : Z) (s : vstate) : nat * vstate :=
   let fresh := length (vuvs s) in
   let '(r, c') := fu_loop (vuvs s) (vuvcache s) idx fresh in
   if Nat.eqb r fresh
-  then (r, with_uvcache (with_uvs s (vuvs s ++ [mkUv idx false None])) c')
+  then (r, with_uvcache (with_uvs s (vuvs s ++ [mkUv idx false None (vcur s)])) c')
   else (r, s).
 
 Definition findUpvalue (idx : Z) : VM nat :=
@@ -514,6 +514,37 @@ Definition forOperand (v : value) : VM (option float) :=
   | _ => vret None
   end.
 
+(* ---------- coroutines ---------- *)
+Definition upd_thread (t : nat) (f : thread -> thread) : VM unit :=
+  vmod (fun s => set_thread s t (f (get_thread s t))).
+
+(* func switchToParentThread(L, nargs, haserror, kill): runs in the coroutine L; moves its top
+   nargs values (preceded by true/false unless L is wrapped) to the resumer, pops L's current
+   frame and the callee slot, makes the resumer the running thread *)
+Definition switchToParentThread (nargs : Z) (haserror kill : bool) : VM unit :=
+  vdo s <- vget;
+  let me := vcur s in
+  let th := get_thread s me in
+  match th_parent th with
+  | None => fault_ 10
+  | Some parent =>
+      vdo cf <- cur_frame;
+      vdo top <- reg_top;
+      let gtop := top - fr_localbase cf in
+      let n := if nargs <? gtop then nargs else gtop in
+      vdo vals <- reg_get_range (top - n) (Z.to_nat n);
+      vdo _ <- reg_settop (top - n);                                  (* L.XMoveTo(parent, n) on L's side *)
+      vdo _ <- vmod (fun s => with_stack s (tl (vstack s)));          (* L.stack.Pop() *)
+      let offset := fr_localbase cf - fr_returnbase cf in
+      vdo top' <- reg_top;
+      vdo _ <- reg_settop (top' - offset);
+      vdo _ <- upd_thread me (fun t => mkTh (th_reg t) (th_stack t) (th_uvcache t) None (th_wrapped t)
+                                            (if kill then true else th_dead t) (th_started t));
+      vdo _ <- vmod (switch_to parent);
+      vdo _ <- (if th_wrapped th then vret tt else reg_push (VBool (negb haserror)));
+      reg_push_list vals
+  end.
+
 Section Instructions.
 
 Variable mainloop : option nat -> VM unit.
@@ -527,12 +558,29 @@ Definition callGFunction (tailcall : bool) : VM bool :=
   | FnLua _ => vunsup 102
   | FnGo b =>
       vdo gfnret <- gfunction b;
-      if gfnret <? 0 then vunsup 110 else
       vdo frame <- cur_frame;
+      if gfnret <? 0 then
+        (* a yield: in tail position the caller's frame stays and the values of the next resume
+           become the results of this call *)
+        vdo _ <- (if tailcall
+                  then set_cur_frame (mkFrame (fr_fn frame) (fr_pc frame) (fr_base frame) (fr_localbase frame)
+                                              (fr_base frame) (fr_nargs frame) MultRet (fr_tailcall frame))
+                  else vret tt);
+        vdo top <- reg_top;
+        vdo cf <- cur_frame;
+        vdo _ <- switchToParentThread (top - fr_localbase cf) false false;
+        vret true
+      else
       vdo _ <- (if tailcall
                 then vmod (fun s => match vstack s with f :: _ :: r => with_stack s (f :: r) | _ => s end)   (* RemoveCallerFrame *)
                 else vret tt);
       let wantret := if fr_nret frame =? MultRet then gfnret else fr_nret frame in
+      vdo s <- vget;
+      (* the bottom frame of a coroutine: its results end the coroutine *)
+      if (match th_parent (get_thread s (vcur s)) with Some _ => true | None => false end)
+         && Nat.eqb (length (vstack s)) 1
+      then vdo _ <- switchToParentThread wantret false true; vret true
+      else
       vdo _ <- vmod_reg (fun r => CopyRange r (fr_returnbase frame) (rtop r - gfnret) (-1) wantret);
       vdo _ <- vmod (fun s => with_stack s (tl (vstack s)));
       vret false
@@ -600,6 +648,13 @@ Definition do_return (cf : cframe) (RA B : Z) (baseframe : option nat) : VM bool
   let nret := if B =? 0 then top - RA else B - 1 in
   let n := if fr_nret cf =? MultRet then nret else fr_nret cf in
   vdo s0 <- vget;
+  if (match th_parent (get_thread s0 (vcur s0)) with Some _ => true | None => false end)
+     && Nat.eqb (length (vstack s0)) 1
+  then (* the body of a coroutine returns *)
+    vdo _ <- vmod_reg (fun r => copyReturnValues r (rtop r) RA n B);
+    vdo _ <- switchToParentThread n false true;
+    vret true
+  else
   let popped := (length (vstack s0) - 1)%nat in
   vdo _ <- vmod (fun s => with_stack s (tl (vstack s)));
   vdo s1 <- vget;
@@ -639,7 +694,8 @@ Definition exec_op (cl : closure) (cf : cframe) (inst : Z) (baseframe : option n
   | OP_LOADNIL => vdo _ <- loadnil_loop RA (Z.to_nat (lbase + B - RA + 1)); vret false
   | OP_GETUPVAL =>
       vdo u <- get_upval cl B;
-      vdo _ <- vmod (fun s => with_reg s (SetCell (vreg s) RA (uv_read (vreg s) (nth u (vuvs s) dummy_uv))));
+      vdo _ <- vmod (fun s => let x := nth u (vuvs s) dummy_uv in
+                              with_reg s (SetCell (vreg s) RA (uv_read (th_reg (get_thread s (uv_thread x))) x)));
       vret false
   | OP_GETGLOBAL =>
       vdo k <- kstring p Bx;
@@ -660,8 +716,11 @@ Definition exec_op (cl : closure) (cf : cframe) (inst : Z) (baseframe : option n
       vdo u <- get_upval cl B; vdo v <- reg_get RA;
       vdo _ <- vmod (fun s =>
                  let x := nth u (vuvs s) dummy_uv in
-                 if uv_closed x then with_uvs s (set_nth (vuvs s) u (mkUv (uv_index x) true (Some v)))
-                 else with_reg s (Set_ (vreg s) (uv_index x) v));
+                 if uv_closed x then with_uvs s (set_nth (vuvs s) u (mkUv (uv_index x) true (Some v) (uv_thread x)))
+                 else let t := get_thread s (uv_thread x) in
+                      set_thread s (uv_thread x)
+                        (mkTh (Set_ (th_reg t) (uv_index x) v) (th_stack t) (th_uvcache t) (th_parent t)
+                              (th_wrapped t) (th_dead t) (th_started t)));
       vret false
   | OP_SETTABLE =>
       vdo o <- reg_get RA; vdo k <- rkValue p lbase B; vdo v <- rkValue p lbase C;
